@@ -30,7 +30,9 @@ Print Assumptions C03_xml_escape_per_char.
 
 (* ---- the whole <p> payload (text, <br/>, spans, the writers' rstrip's and literal white space) ----
    nodes_ok plain_style: texts over XML Char without CR, style dictionaries without colour (italics/bold/underline).
-   The strict parser reads the payload as the token list of the abstract, string-free writer (ANY such node list) ... *)
+   The strict parser reads the payload as the token list of the abstract, string-free writer (ANY such node list) ...
+   (SIMULATION against a second writer model, an option equality that is None = None for unbalanced lists; the token-level
+   statements with conclusion Some are C03_*_payload_tokens_color below, of which these are the colour-free tree-level form) *)
 Theorem C03_dfxp_payload_parse : forall region ns, nodes_ok plain_style ns = true ->
   content_parse (dfxp_payload (extra_of region) ns) = xbuild (abs_tokens [] a_close (dfxp_atok region) ns) [] [].
 Proof. exact dfxp_payload_parse. Qed.
@@ -78,7 +80,8 @@ Theorem C03_vtt_arrow_across_nodes_refuted : exists ns, is_infix (lit "-->") (vt
 Proof. exact vtt_arrow_across_nodes_refuted. Qed.
 Print Assumptions C03_vtt_arrow_across_nodes_refuted.
 
-(* no empty line inside the cue text: empty texts, leading and consecutive breaks become &nbsp; *)
+(* no empty line inside the cue text: empty texts, leading and consecutive breaks become &nbsp; (removelast: the LAST line may
+   be empty - a cue text ending in a line feed) *)
 Theorem C03_vtt_cue_text_no_blank_line : forall ns, texts_no_nl ns = true ->
   forallb str_nonempty (removelast (split_ch 10 (vtt_cue_text ns))) = true.
 Proof. exact vtt_cue_text_no_blank_line. Qed.
@@ -165,15 +168,18 @@ Print Assumptions C03_quoteattr_content_roundtrip.
 
 (* the payload theorems above for style dictionaries WITH a colour (color_style: any colour string over XML Char):
    the span start tag carries tts:color with exactly the authored value (dfxp_atok_c), the text is untouched by it *)
-Theorem C03_dfxp_payload_parse_color : forall region ns, nodes_ok color_style ns = true ->
-  content_parse (dfxp_payload (extra_of region) ns) = xbuild (abs_tokens [] a_close (dfxp_atok_c region) ns) [] [].
-Proof. exact dfxp_payload_parse_c. Qed.
-Print Assumptions C03_dfxp_payload_parse_color.
+(* audit w7: stated on the TOKENS (conclusion Some ..., for ANY node list of the domain, balanced or not) - a SIMULATION against the
+   abstract, string-free writer abs_tokens (a second hand-written writer in proofs/TextPayloadFacts.v, not a spec from the property
+   text); the property-level consequences are the _wellformed_color theorems below *)
+Theorem C03_dfxp_payload_tokens_color : forall region ns, nodes_ok color_style ns = true ->
+  xtokens (dfxp_payload (extra_of region) ns) = Some (abs_tokens [] a_close (dfxp_atok_c region) ns).
+Proof. exact dfxp_payload_tokens_c. Qed.
+Print Assumptions C03_dfxp_payload_tokens_color.
 
-Theorem C03_legacy_payload_parse_color : forall ns, nodes_ok color_style ns = true ->
-  content_parse (legacy_payload ns) = xbuild (abs_tokens [] a_close (dfxp_atok_c false) ns) [] [].
-Proof. exact legacy_payload_parse_c. Qed.
-Print Assumptions C03_legacy_payload_parse_color.
+Theorem C03_legacy_payload_tokens_color : forall ns, nodes_ok color_style ns = true ->
+  xtokens (legacy_payload ns) = Some (abs_tokens [] a_close (dfxp_atok_c false) ns).
+Proof. exact legacy_payload_tokens_c. Qed.
+Print Assumptions C03_legacy_payload_tokens_color.
 
 Theorem C03_dfxp_payload_wellformed_color : forall region ns, nodes_ok color_style ns = true -> flat_balanced ns = true ->
   exists t, content_parse (dfxp_payload (extra_of region) ns) = Some t /\
@@ -193,11 +199,12 @@ Theorem C03_vtt_groups_no_arrow : forall lns, Forall (fun g => is_infix (lit "--
 Proof. exact vtt_groups_no_arrow. Qed.
 Print Assumptions C03_vtt_groups_no_arrow.
 
-(* ... and with one layout (or none) on all nodes the groups are the single cue text of vtt_cue_text *)
-Theorem C03_vtt_groups_one_layout : forall l lns, same_layout l lns = true ->
+(* model = model consistency (not a property theorem): with one layout (or none) on all nodes the groups of the new model
+   are the single cue text of the old model vtt_cue_text *)
+Theorem C03_vtt_groups_one_layout_unfold : forall l lns, same_layout l lns = true ->
   map fst (vtt_groups lns) = match vtt_cue_text (map snd lns) with [] => [] | s => [s] end.
 Proof. exact vtt_groups_one_layout. Qed.
-Print Assumptions C03_vtt_groups_one_layout.
+Print Assumptions C03_vtt_groups_one_layout_unfold.
 
 (* ---- round 4: the WebVTT DOCUMENT (captions with node-level layouts, model/TextWriteVtt.v vtt_doc_g) ----
    texts without LF / CR (node_ok): every group's cue text has no empty line inside (only a trailing break leaves an
